@@ -475,26 +475,28 @@ func (s *Sys) finish(deadline time.Duration) {
 	w.Kill()
 }
 
-// settle waits until the status is neither moving nor Recovering (bounded).
+// settle waits (bounded) until the lifecycle is quiet: the status is not Recovering, the stored status and
+// the plugins agree (Running with an open source, or a stopped status with no open source), and no status
+// write, plugin open / teardown or call return has been logged for a few milliseconds.
 func (s *Sys) settle(deadline time.Duration) {
+	const quiet = 3 * time.Millisecond
 	end := time.Now().Add(deadline)
 	for time.Now().Before(end) {
-		st := s.Status()
 		l := s.W.Events()
-		if st == "Recovering" {
-			time.Sleep(300 * time.Microsecond)
-			continue
-		}
-		if st == "Running" {
-			// a run that is going up: wait until its source is open (or it failed and the status moved on)
-			if openRuns(l) > 0 {
-				return
+		st := lastStatus(l)
+		var last int64
+		for i := len(l) - 1; i >= 0; i-- {
+			switch l[i].K {
+			case "st", "stret", "open", "openfail", "td", "ret", "call":
+				last = l[i].T
+			default:
+				continue
 			}
-			time.Sleep(300 * time.Microsecond)
-			continue
+			break
 		}
-		// stopped statuses: wait until every plugin of the ended run is torn down
-		if openRuns(l) <= 0 {
+		now := time.Since(s.W.t0).Microseconds()
+		agree := (st == "Running") == (openRuns(l) > 0)
+		if st != "Recovering" && agree && now-last > quiet.Microseconds() {
 			return
 		}
 		time.Sleep(300 * time.Microsecond)
